@@ -93,8 +93,9 @@ def _apply_op(zs, op):
                 # primed, but with nothing that could answer a query: the same as a failed fill
                 # (a repeated out-of-range init returns silently from the poisoned cache key)
                 return FAIL
-            return ('I', len(zs.matches), tuple(_norm_transition(t) for t in zs.transitions),
-                    zs.max_transition_buffer_size)
+            # the transitions are the answer; len(matches) and max_transition_buffer_size are diagnostics of how
+            # the answer was computed (a memo that skips the work changes them and keeps every answer)
+            return ('I', tuple(_norm_transition(t) for t in zs.transitions))
         if k == 'bufsz':
             return ('B', zs.get_buffer_sizes(int(op[1]), int(op[2])))
         return ('?',)
@@ -328,7 +329,7 @@ def generate(seed):
     for sl, z in enumerate(zones):
         lines.append('ZONE %d %s vm=%d inplace=%d opt=%d' % (sl, z, rng.choice([14, 14, 14, 13, 36, 12]), rng.randint(0, 1),
                                                             rng.randint(0, 1)))
-    n = rng.randint(4, 40)
+    n = rng.randint(4, 40) if rng.random() < 0.9 else rng.randint(60, 160)   # some long runs: fill any bounded memo
     last_year = rng.randint(2000, 2049)
     fault_free = rng.random() < 0.3
     for _ in range(n):
@@ -364,8 +365,17 @@ def generate(seed):
             for _k in range(reps):
                 lines.append('OP %d init %d' % (sl, y))
         else:
-            y0 = min(max(y, 1999), 2048)
-            lines.append('OP %d bufsz %d %d' % (sl, y0, y0 + rng.randint(1, 3)))
+            y0 = min(max(y, 1999), 2048) if rng.random() < 0.5 else y
+            span = rng.randint(1, 3)
+            for _k in range(reps):
+                lines.append('OP %d bufsz %d %d' % (sl, y0, y0 + span))
+        if not (2000 <= y < 2050) and rng.random() < 0.4:
+            # a failing question is followed by another kind of question about the same year on the same instance:
+            # whatever the failed fill left behind must not answer it
+            if rng.random() < 0.5:
+                lines.append('OP %d bufsz %d %d' % (sl, y, y + 1))
+            else:
+                lines.append('OP %d init %d' % (sl, y))
     return '\n'.join(lines) + '\n'
 
 
